@@ -680,6 +680,8 @@ def corpus():
                    dim=dict(a=0.0, b=1.0, pts=[0.0, 0.25, 0.5, 1.0], levels=[0, 2, 1, 0])))
     ce.append(dict(kind='cert', family='highorder', par=dict(split_up=False, max_degree=5, do_nnls=False), boundary=False, mb=False,
                    wsplit=False, full=False, dim=dict(a=0.0, b=1.0, pts=[0.0, 0.5, 0.75, 1.0], levels=[0, 1, 2, 0])))
+    ce.append(dict(kind='cert', family='highorder', par=dict(split_up=True, max_degree=5, do_nnls=False), boundary=False, mb=False,
+                   wsplit=False, full=False, dim=dict(a=-1.0, b=3.0, pts=[-1.0, -0.5, 0.0, 1.0, 1.5, 1.75, 2.0, 3.0], levels=[0, 3, 2, 1, 3, 4, 2, 0])))
     ce.append(dict(kind='cert', family='lagrange', par=dict(p=2), boundary=False, mb=True, wsplit=False, full=False,
                    dim=dict(a=0.0, b=1.0, pts=[0.0, 0.5, 1.0], levels=[0, 1, 0])))
     ce.append(dict(kind='cert', family='bspline', par=dict(p=1), boundary=False, mb=True, wsplit=False, full=False,
